@@ -1197,8 +1197,12 @@ def stops_of(table):
 
 def gen_string(rng, table):
     """length 0-40, codon-aware: open frame with terminal / internal stops on a random strand and frame, or uniform"""
-    if rng.random() < 0.12:
+    r = rng.random()
+    if r < 0.12:
         L = rng.randint(0, 5)
+    elif r < 0.18:
+        # long sequences around the 256-codon mark (index arrays change integer type with size) and beyond
+        L = rng.choice([3 * 255, 3 * 256, 3 * 256 + 1, 3 * 257 + 2, 3 * rng.randint(258, 420) + rng.randrange(3)])
     else:
         L = rng.randint(6, 40)
     stops = stops_of(table)
@@ -1226,7 +1230,7 @@ def gen_rows(rng, table, aligned, gapped):
     stops = stops_of(table)
     sense = [c for c in CODONS if c not in stops]
     nrows = rng.randint(2, 4)
-    ncod = rng.randint(1, 8)
+    ncod = rng.randint(1, 8) if rng.random() > 0.05 else rng.choice([255, 256, 257, 300])
     tail = rng.choice([0, 0, 0, 1, 2]) if not gapped else 0
     mode = rng.choice(["all-term", "some-term", "no-term", "some-term", "internal"]) if stops else "no-term"
     partial = gapped and rng.random() < 0.35
@@ -1234,7 +1238,7 @@ def gen_rows(rng, table, aligned, gapped):
         mode = "no-term"
     data = {}
     for i in range(nrows):
-        n = ncod if aligned else rng.randint(0 if rng.random() < 0.05 else 1, 8)
+        n = ncod if (aligned or ncod > 8) else rng.randint(0 if rng.random() < 0.05 else 1, 8)
         cod = [rng.choice(sense) for _ in range(n)]
         t = tail if aligned else rng.choice([0, 0, 1, 2])
         if gapped:
